@@ -1,6 +1,6 @@
 (* C04 — Gherkin parsing is faithful: structure, text, tags, step types and line numbers.
    Statements only; proofs are in theories/GherkinProofs.v. *)
-From BV Require Import Base UStr GherkinTypes Gherkin GherkinProofs GherkinRowProofs GherkinBlockProofs GherkinTagProofs GherkinTableProofs GherkinDocProofs GherkinRichProofs GherkinDescrProofs GherkinBgProofs GherkinOutlineProofs.
+From BV Require Import Base UStr GherkinTypes Gherkin GherkinProofs GherkinRowProofs GherkinBlockProofs GherkinTagProofs GherkinTableProofs GherkinDocProofs GherkinRichProofs GherkinDescrProofs GherkinBgProofs GherkinOutlineProofs GherkinZoom GherkinRuleProofs.
 From BVGen Require Import GherkinTables.
 
 (* In every one of the languages of behave.i18n, every alias of every structural keyword, written as "<alias>: x", is
@@ -205,6 +205,40 @@ Theorem a_feature_with_outlines_is_parsed_into_exactly_what_was_written :
     Some (mkPFeat falias fname 1 [] (map strip fds) None (expected_items its (1 + length fds)) code).
 Proof. exact a_feature_with_outlines_is_read_back_exactly. Qed.
 Print Assumptions a_feature_with_outlines_is_parsed_into_exactly_what_was_written.
+
+(* Inside a Rule the machine does what it does inside a feature: while a Rule of a feature without background is being
+   read, the state is the image (unzoom) of a state in which the rule's content sits directly in a feature - the rule's
+   name, tags, description and scenarios being that feature's, later Rules being its Rules - and feeding any lines that
+   are no Background lines commutes with that image, the zoomed states staying well shaped *)
+Theorem inside_a_rule_the_machine_does_what_it_does_inside_a_feature :
+  forall z lines m m',
+  zinv m -> Forall (nobg (m_kw m)) lines -> fold_left feed lines (ROk m) = ROk m' ->
+  fold_left feed lines (ROk (unzoom z m)) = ROk (unzoom z m') /\ zinv m'.
+Proof. exact run_unzoom. Qed.
+Print Assumptions inside_a_rule_the_machine_does_what_it_does_inside_a_feature.
+
+(* ... and with Rules after the feature-level items: each Rule with the tags written above it, its keyword, name and
+   line, its description and its own scenarios and outlines (tags, descriptions, steps with doc-strings and tables,
+   Examples blocks), in file order; a Rule line also closes a pending step table or Examples table *)
+Theorem a_feature_with_rules_is_parsed_into_exactly_what_was_written :
+  forall kw code fline falias fname fds its rules,
+  feature_line kw fline falias fname -> Forall (descr_line kw) fds -> Forall (item_ok kw) its -> Forall (arule_ok kw) rules ->
+  exists m',
+    finish_table (fold_left feed (fline :: fds ++ flat_map item_lines its ++ flat_map arule_lines rules)
+                            (ROk (init_state code kw VFeature StInitial))) = ROk m' /\
+    m_table m' = None /\
+    option_map fin_feature (m_feat m') =
+    Some (mkPFeat falias fname 1 [] (map strip fds) None
+                  (expected_items its (1 + length fds) ++
+                   expected_rules rules (1 + length fds + length (flat_map item_lines its))) code).
+Proof. exact a_feature_with_rules_is_read_back_exactly. Qed.
+Print Assumptions a_feature_with_rules_is_parsed_into_exactly_what_was_written.
+
+(* non-vacuity: an English Rule line; an ordinary step line is no Background line *)
+Example an_english_rule_line :
+  rule_line english [32; 32; 82; 117; 108; 101; 58; 32; 82]%N [82; 117; 108; 101]%N [82%N] /\
+  nobg english [32; 32; 32; 32; 71; 105; 118; 101; 110; 32; 97; 32; 117; 115; 101; 114]%N.
+Proof. split; [split; try (vm_compute; congruence); vm_compute; reflexivity|vm_compute; reflexivity]. Qed.
 
 (* non-vacuity: a German document with header, tags over two lines with a comment, a background, an outline with examples,
    a doc-string and a table with an escaped pipe, indentation, blank and comment lines *)
